@@ -435,6 +435,9 @@ class nd:
     def dot(self, o):
         return matmul(self, o)
 
+    def clip(self, a_min=None, a_max=None, **kw):
+        return clip(self, a_min, a_max, **kw)
+
     def argmax(self, axis=None):
         return argmax(self, axis)
 
@@ -869,7 +872,23 @@ def flipud(x):
     return nd._wrap(list(reversed(x._d)), x, alias=x)
 
 
-def clip(x, a_min=None, a_max=None):
+def _clip_scalar(v, lo, hi):
+    if lo is not None:
+        v = s_where(v < lo, lo, v)
+    if hi is not None:
+        v = s_where(v > hi, hi, v)
+    return v
+
+
+def clip(x, a_min=None, a_max=None, **kw):
+    if kw:
+        raise Unsupported("numpy.clip with out= / where=")
+    if isi(x, nd):
+        if isi(a_min, nd) or isi(a_max, nd) or isinstance(a_min, (list, tuple)) or isinstance(a_max, (list, tuple)):
+            raise Unsupported("numpy.clip with array-valued limits")
+        return nd._wrap(_map(lambda e: _clip_scalar(e, a_min, a_max), x._d), x)
+    if is_sym(x) or is_sym(a_min) or is_sym(a_max):
+        return _clip_scalar(x, a_min, a_max)
     import numpy as _np
     return int(_np.clip(x, a_min, a_max))
 
